@@ -10,8 +10,8 @@ CONSTANTS MaxLines, Fences, Shapes
 VARIABLE z      \* [shape, fence, tag, ls] ; ls = sequence of line ids
 
 LineIds == {"tab", "nfd", "bsn", "quote", "uop", "alias", "assign", "end", "sep", "ticks", "ticks3", "ticks3nfd",
-            "lead", "trail", "word", "empty", "curly", "curly2", "curly3", "cmt", "tq"}
-NeedsLongFence == {"ticks3", "ticks3nfd"}          \* a backtick run of 3: only content under a longer fence
+            "lead", "trail", "word", "empty", "curly", "curly2", "curly3", "cmt", "tq", "ticks3ind"}
+NeedsLongFence == {"ticks3", "ticks3nfd", "ticks3ind"}          \* a backtick run of 3: only content under a longer fence
 
 (* chunks of a content line (atoms Uxxxx are single characters) and the same text in {Uxxxx} encoding *)
 LineChunks(id) ==
@@ -26,6 +26,7 @@ LineChunks(id) ==
     [] id = "curly" -> <<"u = \"https://x\"; render(Widget{props});">>
     [] id = "curly2" -> <<"render(Widget{props});">>
     [] id = "curly3" -> <<"see \"T1\" then Widget{props}">>
+    [] id = "ticks3ind" -> <<"    ```sh">>
     [] id = "cmt" -> <<"// not a comment">>       [] OTHER (* tq *) -> <<"\"\"\"x\"\"\"">>
 LineEnc(id) ==
   CASE id = "tab" -> "{U0009}x"                   [] id = "nfd" -> "cafe{U0301}"
@@ -39,6 +40,7 @@ LineEnc(id) ==
     [] id = "curly" -> "u = \"https://x\"; render(Widget{U007B}props});"
     [] id = "curly2" -> "render(Widget{U007B}props});"
     [] id = "curly3" -> "see \"T1\" then Widget{U007B}props}"
+    [] id = "ticks3ind" -> "    ```sh"
     [] id = "cmt" -> "// not a comment"           [] OTHER -> "\"\"\"x\"\"\""
 
 Ticks(n) == [i \in 1..n |-> "`"]
@@ -94,7 +96,7 @@ ExpectedOthers(zz) ==
     [] OTHER              -> << <<0, "A">>, <<0, "Z">> >>
 
 (* ---------------------------------------------------------------------------------- *)
-Init == \E s \in Shapes : \E f \in Fences : \E t \in {"", "python"} :
+Init == \E s \in Shapes : \E f \in Fences : \E t \in {"", "python", "python title=\"app.py\" linenos"} :
           z = [shape |-> s, fence |-> f, tag |-> t, ls |-> <<>>]
 AddLine == /\ Len(z.ls) < MaxLines
            /\ \E id \in LineIds : /\ (id \in NeedsLongFence => z.fence >= 4)
